@@ -67,7 +67,7 @@ CLAIMS['C13'] = dict(level='other', technique='MIR provenance rules on deep_copy
     note='The type-level part (no public constructor of Element from ElementRaw, no access to the inner Arc) rests on Rust privacy of pub(crate)/private fields, visible in the ADT table (field visibility is checked).',
     ref='§4 C13')
 CLAIMS['C14'] = dict(level='other', technique='MIR write-set closure of sort over the call graph, control-dependence of clear() on !is_ordered() and the content mode, must-pass-through of the refill loop with provenance of its iterable, comparator shape',
-    text='Decides ONLY that sorting permutes the content list: its transitive write-set is {ElementRaw.content}, it never reorders a type marked ordered, it re-inserts exactly the handles it collected (every Element item is collected, the refill loop is on every path after the clear, nothing can exit in between), and the comparator orders by specification position first. Idempotence and independence of the initial order are NOT decided (they need a total order on run-time values; Ord for Element is not one - documented finding).',
+    text='Decides ONLY that sorting permutes the content list: its transitive write-set is {ElementRaw.content}, it never reorders a type marked ordered, it re-inserts exactly the handles it collected (every Element item is collected, the refill loop is on every path after the clear, nothing can exit in between), the comparator orders by specification position first, children are sorted before their parents are compared, and Element::cmp never lets a predicate relating BOTH operands choose the comparison (the construct that made the order non-transitive on the pinned tree - a2 < a10 < a1b < a2 - found by this rule and repaired). Idempotence and independence of the initial order for all trees are NOT decided beyond these structural conditions (they need a total order on run-time values).',
     note='Narrow necessary conditions; stated as such.',
     ref='§4 C14')
 
